@@ -10,7 +10,7 @@ def specs_for(tier, seed):
     s = [
         dict(pres="tensors", nreq=2, ce=2, label="real graph, tensors, 2 requests exhaustive, ce=2"),
         dict(pres="tensors", nreq=2, ce=1000, label="real graph, tensors, 2 requests exhaustive, no clean-up (ce=1000)"),
-        dict(pres="components", nreq=1, ce=1, label="real graph, components, 1 request exhaustive, ce=1"),
+        dict(pres="components", nreq=1, ce=1, coverage=True, label="real graph, components, 1 request exhaustive, ce=1 (with action coverage)"),
         dict(pres="minimal", nreq=1, ce=3, label="real graph, minimal inputs, 1 request, ce=3"),
         dict(pres="dust", nreq=3, ce=2, requests="MATTER", label="rest-mass density with a vacuum region, no eps given: 3 requests over matter keys, ce=2"),
         dict(pres="partial", nreq=2, ce=1000, requests="SHIFT", label="shift given by two components only: 2 requests over shift-related keys and helpers"),
